@@ -193,6 +193,12 @@ def _case(seed: int) -> Dict[str, Any]:
                         "ts": s["ts"], "dur": max(1, s["dur"]), "args": {"correlation": s["args"]["correlation"], "stream": -1}})
         if seed % 4 == 0:
             evs.append({"ph": "X", "cat": "cuda_sync", "name": "Event Sync", "pid": 0, "tid": 0, "ts": evs[0]["ts"] + 3, "dur": 2, "args": {"stream": -1}})
+    if seed % 6 == 1:
+        # Python stack-frame entries (with_stack=True), some of them the first entries of the file: row ids stay file positions, links stay mutual
+        for rk, evs in per_rank.items():
+            host = [e for e in evs if e.get("ph") == "X" and e.get("cat") == "cpu_op"]
+            for k, h in enumerate(host[:3]):
+                evs.insert(k, {"ph": "X", "cat": "python_function", "name": f"train.py({20 + k}): step", "pid": h["pid"], "tid": h["tid"], "ts": h["ts"], "dur": h["dur"]})
     if seed % 6 == 5:
         # a capture without device activities (host-side tracing only): every event on a device stream is absent from the file, the host calls keep their
         # correlation ids (-> 0: counterpart absent) and the sync records on stream -1 keep theirs (-> still linked to their calls)
